@@ -74,6 +74,21 @@ def check(case):
         else:
             I = ModelCSimInterface(M)
             I.py_prep_deterministic_simulation()
+            if case["surface"] == "simulator_batch":
+                # interfaces are commonly prepared ahead of use (sensitivity analysis, inference): another model -
+                # the same network with every rate constant tripled - is prepared, and simulated, in between
+                import copy
+                sp2 = copy.deepcopy(sp)
+                for k_ in sp2["params"]:
+                    sp2["params"][k_] = 3.0 * float(sp2["params"][k_])
+                for rx_ in sp2["reactions"]:
+                    if rx_["type"] != "general" and not isinstance(rx_["pd"]["k"], str):
+                        rx_["pd"]["k"] = 3.0 * float(rx_["pd"]["k"])
+                M2 = specmod.to_model(sp2)
+                I2 = ModelCSimInterface(M2)
+                I2.py_prep_deterministic_simulation()
+                if case.get("decoy_runs"):
+                    DeterministicSimulator().py_simulate(I2, tp[:3] if len(tp) > 3 else tp)
             sim = DeterministicSimulator()
             if case.get("hmax_by_setter") and "hmax" in opts:
                 sim.py_set_hmax(opts.pop("hmax"))
@@ -228,7 +243,8 @@ def cases(draw):
         for d in draw(st.permutations(incs)):
             grid.append(grid[-1] + d * scale)
     return {"kind": "ode", "family": fam, "spec": sp, "grid": grid,
-            "surface": draw(st.sampled_from(["model_api", "simulator"]))}
+            "surface": draw(st.sampled_from(["model_api", "simulator", "simulator_batch"])),
+            "decoy_runs": draw(st.booleans())}
 
 
 def search(ctx):
